@@ -290,11 +290,14 @@ func (g *sheetGen) color() string {
 	case 10:
 		return fmt.Sprintf("rgb(%d%% %d%% %d%%)", r.Intn(101), r.Intn(101), r.Intn(101))
 	case 11:
-		return fmt.Sprintf("hsl(%d, %d%%, %d%%)", r.Intn(721)-180, r.Intn(101), r.Intn(101))
+		return fmt.Sprintf("hsl(%s, %d%%, %d%%)", wideHueNumber(r), edgePct(r), edgePct(r))
 	case 12:
-		return fmt.Sprintf("hsl(%s %d%% %d%% / %s)", []string{"120deg", "0.5turn", "200grad", "90", "-30deg"}[r.Intn(5)], r.Intn(101), r.Intn(101), al())
+		return fmt.Sprintf("hsl(%s %d%% %d%% / %s)", wideHue(r), edgePct(r), edgePct(r), al())
 	case 13:
-		return fmt.Sprintf("hwb(%d %d%% %d%%)", r.Intn(360), r.Intn(101), r.Intn(101))
+		if r.Chance(30) {
+			return fmt.Sprintf("hwb(%s %d%% %d%% / %s)", wideHue(r), edgePct(r), edgePct(r), al())
+		}
+		return fmt.Sprintf("hwb(%s %d%% %d%%)", wideHue(r), edgePct(r), edgePct(r))
 	case 14:
 		if g.o.wideColors {
 			g.note("val-wide-color")
@@ -304,7 +307,42 @@ func (g *sheetGen) color() string {
 		}
 		return "currentColor"
 	}
-	return fmt.Sprintf("hsla(%d, %d%%, %d%%, %s)", r.Intn(360), r.Intn(101), r.Intn(101), al())
+	return fmt.Sprintf("hsla(%s, %d%%, %d%%, %s)", wideHueNumber(r), edgePct(r), edgePct(r), al())
+}
+
+// hues over many turns, negative, in every angle unit
+func wideHueNumber(r *Rng) string {
+	if r.Chance(35) {
+		return fmt.Sprint([]int{0, 360, 720, -360, 600, -240, 1080, -720, 361, 1000, -1000}[r.Intn(11)])
+	}
+	return fmt.Sprint(r.Intn(3001) - 1500)
+}
+
+func wideHue(r *Rng) string {
+	switch r.Intn(6) {
+	case 0:
+		return wideHueNumber(r)
+	case 1:
+		return wideHueNumber(r) + "deg"
+	case 2:
+		return fmt.Sprintf("%dgrad", r.Intn(3401)-1700)
+	case 3:
+		return []string{"2turn", "-1turn", "0.5turn", "1.75turn", "-2.25turn", "3turn", "-0.25turn", "1turn"}[r.Intn(8)]
+	case 4:
+		return []string{"3.14rad", "-7.5rad", "12.6rad", "1rad", "-20rad", "31.4rad"}[r.Intn(6)]
+	}
+	return []string{"120deg", "0.5turn", "200grad", "90", "-30deg"}[r.Intn(5)]
+}
+
+// percentages with the boundaries over-represented
+func edgePct(r *Rng) int {
+	switch r.Intn(8) {
+	case 0:
+		return 0
+	case 1:
+		return 100
+	}
+	return r.Intn(101)
 }
 
 func (g *sheetGen) length(allowAuto bool) string {
